@@ -244,4 +244,277 @@ theorem followT_agg_step (O : Oracles) (qy : Query) (q : AggStmt) (hq : qy.stmt 
     rw [hF, hFp, hBp]
     exact ⟨rfl, rfl, rfl⟩
 
+/-! ### failure agreement at the k-th line -/
+
+/-- the result step after the k-th row: `execute_result` on the follow-mode state and the final result of the batch run
+over the same k rows have the same outcome — the same table, or the same failure -/
+theorem follow_result_outcome_eq_batch {O : Oracles} {q : AggStmt} (hlim : q.limit = none) (pre : List Env) (env : Env)
+    {sf sf1 sb : AggState}
+    (hfollow : followRun O q pre {} = .ok sf) (hupd : aggUpdateRow O q sf env = .ok (sf1, true))
+    (hbatch : aggRun O q (pre ++ [env]) {} = .ok sb)
+    (hex : KeysExact (groupKeysOf O q (pre ++ [env]))) :
+    (aggResult O q sf1).bind (fun r => .ok r.2) = finalResult O q { agg := sb } := by
+  rw [aggRun_append] at hbatch
+  obtain ⟨sbp, hbp, hbl⟩ := obind_ok hbatch
+  simp only [aggRun] at hbl
+  obtain ⟨⟨sb', u'⟩, hbu, hbe⟩ := obind_ok hbl
+  simp only [Outcome.ok.injEq] at hbe
+  subst hbe
+  obtain ⟨S, hsim, hSk⟩ := sim2_runs pre (sim2_init q) (K := []) (fun k hk => by simp at hk) hfollow hbp
+  obtain ⟨hu, S1, hsim1, _, hnew⟩ := sim2_step hsim hupd hbu
+  have hexS : KeysExact S1 := by
+    have hsubK : ∀ k ∈ S1, k ∈ groupKeysOf O q (pre ++ [env]) := by
+      intro k hk
+      simp only [groupKeysOf, List.filterMap_append, List.mem_append]
+      rcases hnew k hk with h1 | h1
+      · rcases hSk k h1 with h2 | h2
+        · simp at h2
+        · exact Or.inl h2
+      · right; simp [h1]
+    intro a ha b hb hab
+    exact hex a (hsubK a ha) b (hsubK b hb) hab
+  have := aggResult_sim2 (O := O) hsim1 hexS
+  rw [this]
+  simp only [finalResult, hlim, bind]
+  cases aggResult O q sb' <;> rfl
+
+/-- how the executed follow loop ends when the rows of `pre` were fed without failure and then one more admitted line
+arrives: as the engine step for that line ends -/
+theorem runFollow_agg_snoc_status (O : Oracles) (qy : Query) (q : AggStmt) (hq : qy.stmt = .aggregate q) (hj : qy.join = none)
+    (hlim : q.limit = none) (pre : List Line) (l : Line) (hadm : anyResult l.row = true) (ls : LoopState)
+    {sf : AggState} {ts0 : List RowOut}
+    (h : followTables O q (followEnvs qy.table pre) ls.es.agg = .ok (sf, ts0)) :
+    endStatus (runFollow O qy none (pre ++ [l]) ls).out =
+      endStatus (match followStep O q sf (lineEnv qy.table l) with
+        | .ok _ => ls.out
+        | o => failWith ls.out o) := by
+  induction pre generalizing ls ts0 with
+  | nil =>
+    simp only [followEnvs, asFile, List.map_nil, envsOf, List.filter_nil, followTables, Outcome.ok.injEq, Prod.mk.injEq] at h
+    obtain ⟨h1, _⟩ := h
+    subst h1
+    have hnone : ((none : Option Nat) == some ls.consumed) = false := rfl
+    simp only [List.nil_append, runFollow, hnone, Bool.false_eq_true, if_false]
+    rw [executeLine_follow_agg O qy q [] _ l hq hj hadm]
+    cases hs : followStep O q ls.es.agg (lineEnv qy.table l) with
+    | ok p =>
+      obtain ⟨st1, r⟩ := p
+      have hs' : followStep O q
+          { ls with consumed := ls.consumed + 1, out := { ls.out with totalLines := ls.out.totalLines + 1 } }.es.agg
+          (lineEnv qy.table l) = .ok (st1, r) := hs
+      simp only [hs', Outcome.bind, updateLimit, hlim]
+      cases r <;> simp [endStatus, hq]
+    | error k =>
+      have hs' : followStep O q
+          { ls with consumed := ls.consumed + 1, out := { ls.out with totalLines := ls.out.totalLines + 1 } }.es.agg
+          (lineEnv qy.table l) = .error k := hs
+      simp [hs', Outcome.bind, failWith, endStatus]
+    | panic k =>
+      have hs' : followStep O q
+          { ls with consumed := ls.consumed + 1, out := { ls.out with totalLines := ls.out.totalLines + 1 } }.es.agg
+          (lineEnv qy.table l) = .panic k := hs
+      simp [hs', Outcome.bind, failWith, endStatus]
+    | oracleMissing k =>
+      have hs' : followStep O q
+          { ls with consumed := ls.consumed + 1, out := { ls.out with totalLines := ls.out.totalLines + 1 } }.es.agg
+          (lineEnv qy.table l) = .oracleMissing k := hs
+      simp [hs', Outcome.bind, failWith, endStatus]
+  | cons x rest ih =>
+    have hnone : ((none : Option Nat) == some ls.consumed) = false := rfl
+    rw [followEnvs_cons] at h
+    simp only [List.cons_append, runFollow, hnone, Bool.false_eq_true, if_false]
+    by_cases hx : anyResult x.row = true
+    · simp only [hx, if_true, followTables] at h
+      obtain ⟨⟨st1, r⟩, h1, h2⟩ := obind_ok h
+      obtain ⟨⟨st2, ts2⟩, h3, h4⟩ := obind_ok h2
+      simp only [Outcome.ok.injEq, Prod.mk.injEq] at h4
+      obtain ⟨h4a, _⟩ := h4
+      subst h4a
+      rw [executeLine_follow_agg O qy q [] _ x hq hj hx]
+      simp only [h1, Outcome.bind, updateLimit, hlim]
+      cases r with
+      | none =>
+        simp only []
+        rw [ih _ (by simpa using h3)]
+        cases followStep O q st2 (lineEnv qy.table l) <;> simp [endStatus, failWith]
+      | some out =>
+        simp only [hq, Bool.false_eq_true, if_false]
+        rw [ih _ (by simpa using h3)]
+        cases followStep O q st2 (lineEnv qy.table l) <;> simp [endStatus, failWith]
+    · simp only [hx, Bool.false_eq_true, if_false] at h
+      have hex : executeLine O qy [] true
+          { ls with consumed := ls.consumed + 1, out := { ls.out with totalLines := ls.out.totalLines + 1 } }.es x =
+          .ok (ls.es, { result := none, reachedLimit := false }) := by
+        simp only [executeLine, hq, hx, Bool.not_false, if_true, updateLimit, hlim, Nat.add_zero]
+      rw [hex]
+      simp only []
+      rw [ih _ (by simpa using h)]
+      cases followStep O q sf (lineEnv qy.table l) <;> simp [endStatus, failWith]
+
+/-- **failure agreement at the k-th line** (the result step): the rows of the first k−1 lines fed one at a time without
+failure, the k-th line admitted and its update accepted by WHERE in follow mode, the batch updates over the first k lines
+succeed, exact keys: then the executed follow run over the k lines and the executed batch run over them end alike — both
+`Ok`, or both with the SAME error (or missing fact) raised by `execute_result` -/
+theorem followT_agg_step_status (O : Oracles) (qy : Query) (q : AggStmt) (hq : qy.stmt = .aggregate q) (hj : qy.join = none)
+    (hlim : q.limit = none) (joined : Option (List FileLine)) (pre : List Line) (l : Line) (hadm : anyResult l.row = true)
+    {sf sf1 sb : AggState} {ts0 : List RowOut}
+    (hF : followTables O q (followEnvs qy.table pre) {} = .ok (sf, ts0))
+    (hupd : aggUpdateRow O q sf (lineEnv qy.table l) = .ok (sf1, true))
+    (hB : aggRun O q (followEnvs qy.table (pre ++ [l])) {} = .ok sb)
+    (hex : KeysExact (groupKeysOf O q (followEnvs qy.table (pre ++ [l])))) :
+    endStatus (runFollowAllT O qy none (pre ++ [l])).out = endStatus (runBatchT O qy joined [asFile (pre ++ [l])]).out := by
+  have he : followEnvs qy.table (pre ++ [l]) = followEnvs qy.table pre ++ [lineEnv qy.table l] := by
+    rw [followEnvs_append, followEnvs_cons]
+    simp [hadm, followEnvs, asFile, envsOf]
+  have hB0 := hB
+  rw [he] at hB hex
+  have hkey := follow_result_outcome_eq_batch hlim _ _ (followRun_of_tables hF) hupd hB hex
+  have hl : reachedLimit qy {} = false := by simp [reachedLimit, hq]
+  -- the follow side
+  have hfs : followStep O q sf (lineEnv qy.table l) = (aggResult O q sf1).bind (fun r => .ok (r.1, some r.2)) := by
+    simp only [followStep, hupd, Outcome.bind, if_true]
+  have hL : endStatus (runFollowAllT O qy none (pre ++ [l])).out =
+      endStatus (match followStep O q sf (lineEnv qy.table l) with
+        | .ok _ => ({} : RunOut)
+        | o => failWith {} o) := by
+    rw [runFollowAllT_out]
+    unfold runFollowAll
+    simp only [hl, Bool.false_eq_true, if_false]
+    exact runFollow_agg_snoc_status O qy q hq hj hlim pre l hadm {} hF
+  -- the batch side
+  have hR : endStatus (runBatchT O qy joined [asFile (pre ++ [l])]).out =
+      endStatus (match finalResult O q { agg := sb } with
+        | .ok _ => ({} : RunOut)
+        | o => failWith {} o) := by
+    rw [Pipeline.runBatchT_nojoin O qy hj joined, Pipeline.runBatchT_some_out]
+    have hls := runFiles_agg O qy q hq hj [asFile (pre ++ [l])] (by simpa using asFile_readable _) {} rfl
+      (by simpa [followEnvs] using hB0)
+    simp only [runBatch, hj, hq, Bool.not_true]
+    rw [hls]
+    simp only [afterLines, hasFailed]
+    have hfin : finalResult O q { seen := ([] : List (List Value)), agg := sb, numOut := 0 } = finalResult O q { agg := sb } := rfl
+    simp only [Option.isSome_none, Bool.or_self, Bool.false_eq_true, if_false]
+    rw [hfin]
+    cases hfr : finalResult O q { agg := sb } <;> simp [endStatus, failWith]
+  rw [hL, hR, hfs, ← hkey]
+  cases aggResult O q sf1 <;> simp [Outcome.bind, endStatus, failWith]
+
+/-- … and what it has handed to the printer: the tables shown for `pre`, then the table of the last line if its step
+succeeded and WHERE admitted it -/
+theorem runFollowT_agg_snoc_calls (O : Oracles) (qy : Query) (q : AggStmt) (hq : qy.stmt = .aggregate q) (hj : qy.join = none)
+    (hlim : q.limit = none) (pre : List Line) (l : Line) (hadm : anyResult l.row = true) (s : TraceState)
+    {sf : AggState} {ts0 : List RowOut}
+    (h : followTables O q (followEnvs qy.table pre) s.ls.es.agg = .ok (sf, ts0)) :
+    (runFollowT O qy none (pre ++ [l]) s).calls =
+      s.calls ++ ts0.map (fun r => { result := r, final := true }) ++
+        (match followStep O q sf (lineEnv qy.table l) with
+          | .ok (_, some r) => [{ result := r, final := true }]
+          | _ => []) := by
+  have hu : isUpdated qy = true := by simp [isUpdated, hq]
+  induction pre generalizing s ts0 with
+  | nil =>
+    simp only [followEnvs, asFile, List.map_nil, envsOf, List.filter_nil, followTables, Outcome.ok.injEq, Prod.mk.injEq] at h
+    obtain ⟨h1, h2⟩ := h
+    subst h1; subst h2
+    have hnone : ((none : Option Nat) == some s.ls.consumed) = false := rfl
+    simp only [List.nil_append, runFollowT, hnone, Bool.false_eq_true, if_false, List.map_nil, List.append_nil]
+    rw [executeLine_follow_agg O qy q [] _ l hq hj hadm]
+    cases hs : followStep O q s.ls.es.agg (lineEnv qy.table l) with
+    | ok p =>
+      obtain ⟨st1, r⟩ := p
+      have hs' : followStep O q
+          { s.ls with consumed := s.ls.consumed + 1, out := { s.ls.out with totalLines := s.ls.out.totalLines + 1 } }.es.agg
+          (lineEnv qy.table l) = .ok (st1, r) := hs
+      simp only [hs', Outcome.bind, updateLimit, hlim]
+      cases r <;> simp [hu]
+    | error k =>
+      have hs' : followStep O q
+          { s.ls with consumed := s.ls.consumed + 1, out := { s.ls.out with totalLines := s.ls.out.totalLines + 1 } }.es.agg
+          (lineEnv qy.table l) = .error k := hs
+      simp [hs', Outcome.bind]
+    | panic k =>
+      have hs' : followStep O q
+          { s.ls with consumed := s.ls.consumed + 1, out := { s.ls.out with totalLines := s.ls.out.totalLines + 1 } }.es.agg
+          (lineEnv qy.table l) = .panic k := hs
+      simp [hs', Outcome.bind]
+    | oracleMissing k =>
+      have hs' : followStep O q
+          { s.ls with consumed := s.ls.consumed + 1, out := { s.ls.out with totalLines := s.ls.out.totalLines + 1 } }.es.agg
+          (lineEnv qy.table l) = .oracleMissing k := hs
+      simp [hs', Outcome.bind]
+  | cons x rest ih =>
+    have hnone : ((none : Option Nat) == some s.ls.consumed) = false := rfl
+    rw [followEnvs_cons] at h
+    simp only [List.cons_append, runFollowT, hnone, Bool.false_eq_true, if_false]
+    by_cases hx : anyResult x.row = true
+    · simp only [hx, if_true, followTables] at h
+      obtain ⟨⟨st1, r⟩, h1, h2⟩ := obind_ok h
+      obtain ⟨⟨st2, ts2⟩, h3, h4⟩ := obind_ok h2
+      simp only [Outcome.ok.injEq, Prod.mk.injEq] at h4
+      obtain ⟨h4a, h4b⟩ := h4
+      subst h4a; subst h4b
+      rw [executeLine_follow_agg O qy q [] _ x hq hj hx]
+      simp only [h1, Outcome.bind, updateLimit, hlim]
+      cases r with
+      | none =>
+        simp only []
+        rw [ih _ (by simpa using h3)]
+        simp
+      | some out =>
+        simp only [hu, Bool.false_eq_true, if_false]
+        rw [ih _ (by simpa using h3)]
+        simp
+    · simp only [hx, Bool.false_eq_true, if_false] at h
+      have hex : executeLine O qy [] true
+          { s.ls with consumed := s.ls.consumed + 1, out := { s.ls.out with totalLines := s.ls.out.totalLines + 1 } }.es x =
+          .ok (s.ls.es, { result := none, reachedLimit := false }) := by
+        simp only [executeLine, hq, hx, Bool.not_false, if_true, updateLimit, hlim, Nat.add_zero]
+      rw [hex]
+      simp only []
+      exact ih _ (by simpa using h)
+
+/-- the executed follow run over `pre ++ [l]` (rows of `pre` fed without failure, `l` admitted): what it hands to the
+printer and how it ends, in terms of the engine step for `l` -/
+theorem followT_agg_snoc_trace (O : Oracles) (qy : Query) (q : AggStmt) (hq : qy.stmt = .aggregate q) (hj : qy.join = none)
+    (hlim : q.limit = none) (pre : List Line) (l : Line) (hadm : anyResult l.row = true) {sf : AggState} {ts0 : List RowOut}
+    (hF : followTables O q (followEnvs qy.table pre) {} = .ok (sf, ts0)) :
+    (runFollowAllT O qy none (pre ++ [l])).calls =
+      ts0.map (fun r => { result := r, final := true }) ++
+        (match followStep O q sf (lineEnv qy.table l) with
+          | .ok (_, some r) => [{ result := r, final := true }]
+          | _ => []) ∧
+    endStatus (runFollowAllT O qy none (pre ++ [l])).out =
+      endStatus (match followStep O q sf (lineEnv qy.table l) with
+        | .ok _ => ({} : RunOut)
+        | o => failWith {} o) := by
+  have hl : reachedLimit qy {} = false := by simp [reachedLimit, hq]
+  constructor
+  · unfold runFollowAllT
+    simp only [hl, Bool.false_eq_true, if_false]
+    rw [runFollowT_agg_snoc_calls O qy q hq hj hlim pre l hadm {} hF]
+    simp
+  · rw [runFollowAllT_out]
+    unfold runFollowAll
+    simp only [hl, Bool.false_eq_true, if_false]
+    exact runFollow_agg_snoc_status O qy q hq hj hlim pre l hadm {} hF
+
+/-- a failed batch run of an aggregate statement has handed nothing to the printer -/
+theorem runBatchT_agg_failed_calls (O : Oracles) (qy : Query) (q : AggStmt) (hq : qy.stmt = .aggregate q) (hj : qy.join = none)
+    (joined : Option (List FileLine)) (files : List (List FileLine))
+    (h : hasFailed (runBatchT O qy joined files).out = true) : (runBatchT O qy joined files).calls = [] := by
+  have hC : (runFilesT O qy [] false files {}).calls = [] := runFilesT_agg_calls O qy q hq [] files {}
+  unfold runBatchT joinSetup runWithIndexT at h ⊢
+  simp only [hj, hq, Bool.not_true] at h ⊢
+  split
+  · exact hC
+  · rename_i hnf
+    simp only [hnf, Bool.false_eq_true, if_false] at h
+    cases hfr : finalResult O q (runFilesT O qy [] false files {}).ls.es with
+    | ok r =>
+      rw [hfr] at h
+      exact absurd h hnf
+    | error k => exact hC
+    | panic k => exact hC
+    | oracleMissing k => exact hC
+
 end Sqlgrep
